@@ -115,6 +115,15 @@ def cases(tier, seed):
         for th in ("auto", "Multisphere"):
             out.append({"id": "chcluster:%s:%s" % (what, th),
                         "kind": "chcluster", "what": what, "th": th})
+    # channels through every theory for spheres, with wavelengths that are
+    # all different, all equal or equal in pairs (channels that differ in
+    # polarization only share every wavelength-keyed intermediate)
+    for th in CHTH:
+        for wlp in ("distinct", "equal", "aba", "scalar"):
+            for polo in (0, 1, 2):
+                out.append({"id": "chtheory:%s:wl=%s:pol-order=%d" %
+                            (th, wlp, polo), "kind": "chtheory", "th": th,
+                            "wlp": wlp, "polo": polo})
     D = 2 if tier == "quick" else 3
     for vec in deviations({k: list(range(len(v))) for k, v in
                            CH_AXES.items()}, D):
@@ -350,6 +359,81 @@ def _mk_param(kind, table, labels, order, vec=False):
     raise ValueError(kind)
 
 
+CHTH = ["Mie", "MieLens", "AberratedMieLens", "Lens(Mie)", "Multisphere",
+        "Mie-collection", "MieLens-collection"]
+CHPOL = [{"red": (0.6, 0.8), "green": (0, 1), "blue": (1, 0)},
+         {"red": (0, 1), "green": (0.6, -0.8), "blue": (0.6, 0.8)},
+         {"red": (1, 0), "green": (0.28, 0.96), "blue": (0, 1)}]
+CHTOL = {"Mie": 1e-13, "Mie-collection": 1e-13, "Multisphere": 1e-12}
+
+
+def _run_chtheory(case, ck):
+    from holopy.scattering import (Sphere, Spheres, Mie, MieLens,
+                                   AberratedMieLens, Multisphere, calc_holo,
+                                   calc_field)
+    from holopy.scattering.theory import Lens
+    th, wlp = case["th"], case["wlp"]
+    labels = LABELS[3]
+    wls = {"distinct": WLS, "equal": dict.fromkeys(labels, 0.66),
+           "aba": {"red": 0.66, "green": 0.52, "blue": 0.66},
+           "scalar": dict.fromkeys(labels, 0.66)}[wlp]
+    wl = 0.66 if wlp == "scalar" else dict(wls)
+    pols = CHPOL[case["polo"]]
+
+    def theory():
+        return {"Mie": Mie, "Mie-collection": Mie, "Multisphere": Multisphere,
+                "MieLens": lambda: MieLens(0.8),
+                "MieLens-collection": lambda: MieLens(0.8),
+                "AberratedMieLens": lambda: AberratedMieLens(
+                    [0.1, -0.05, 0.02], 0.8),
+                "Lens(Mie)": lambda: Lens(0.8, Mie(False, False),
+                                          quad_npts_theta=40,
+                                          quad_npts_phi=40)}[th]()
+    s0 = Sphere(n=1.59, r=0.5, center=(0.17, 0.21, 5.0))
+    if th.endswith("-collection") or th == "Multisphere":
+        scat = Spheres([s0, Sphere(n=1.45, r=0.3, center=(1.4, 1.0, 5.6))])
+    else:
+        scat = s0
+    shape, spacing = (3, 4), 0.1
+    det = H.det_grid(shape, spacing, extra_dims={"illumination": labels})
+    det1 = H.det_grid(shape, spacing)
+    tol = CHTOL.get(th, 1e-11)
+    fps = []
+    with warnings.catch_warnings():
+        warnings.simplefilter("ignore")
+        try:
+            holo = calc_holo(det, scat, H.NMED, wl, dict(pols),
+                             theory=theory(), scaling=0.8)
+            field = calc_field(det, scat, H.NMED, wl, dict(pols),
+                               theory=theory())
+        except Exception as e:          # noqa
+            ck.true("multichannel-accepted", False, "multi-channel "
+                    "calculation with %s raised %s: %s" %
+                    (th, type(e).__name__, e))
+            return "exc:" + type(e).__name__
+        ck.trans += 2
+        for lab in labels:
+            h1 = calc_holo(det1, scat, H.NMED, wls[lab], pols[lab],
+                           theory=theory(), scaling=0.8)
+            f1 = calc_field(det1, scat, H.NMED, wls[lab], pols[lab],
+                            theory=theory())
+            ck.trans += 2
+            for nm, multi, single in (("hologram", holo, h1),
+                                      ("field", field, f1)):
+                got = multi.sel(illumination=lab).transpose(
+                    *single.dims).values
+                e = float(np.abs(got - single.values).max() /
+                          np.abs(single.values).max())
+                ck.metric("channels-by-theory:" + th, e)
+                ck.true("channel-equals-single:by-theory", e <= tol,
+                        "%s, wavelengths %s, polarizations %r: channel %r of "
+                        "the multi-channel %s differs from the single-"
+                        "channel calculation by %.3g" %
+                        (th, wlp, pols, lab, nm, e))
+                fps.append(fp_values(got))
+    return digest(*fps)
+
+
 def _run_ch(case, ck):
     import xarray as xr
     from holopy.core.metadata import update_metadata
@@ -546,7 +630,8 @@ def _run_chcluster(case, ck):
 def run_case(case):
     ck = Checker()
     fp = {"sup": _run_sup, "tree": _run_tree, "lin": _run_lin, "lintyped": _run_lintyped, "chlayered": _run_chlayered,
-          "ch": _run_ch, "chcluster": _run_chcluster}[case["kind"]](case, ck)
+          "ch": _run_ch, "chcluster": _run_chcluster,
+          "chtheory": _run_chtheory}[case["kind"]](case, ck)
     if fp == "unsupported":
         return ck.result(fp=fp, outcome="refused", nontrivial=False)
     return ck.result(fp=fp)
